@@ -1,5 +1,5 @@
 """C09 - streamed pkg_summary parsing is independent of how the bytes are chunked."""
-from common import Case, enc
+from common import Case, enc, dec
 import sgen
 
 PID = "C09"
@@ -79,6 +79,18 @@ def generate(rng, tier):
         cases.append(Case("stream", [enc(junk)], meta={"kind": "junk", "nt": False}))
         cases.append(Case("stream", [enc(junk[:1]), enc(junk[1:])], meta={"kind": "junk", "nt": False}))
     return cases
+
+
+def property_fails(c, oi, om, os_):
+    """C09 speaks about UTF-8 entries: a disagreement on a stream that is not valid UTF-8 breaks the correspondence, not the property"""
+    try:
+        b = bytes(x for a in c.args for x in dec(a))
+        b.decode("utf-8")
+        return True
+    except UnicodeDecodeError:
+        return False
+    except Exception:
+        return True
 
 
 def nontrivial(c):
